@@ -3,6 +3,7 @@ from __future__ import annotations
 
 from simkit import oracle, scene
 from simkit.errors import HarnessError, InjectedCrash
+from simkit.util import tb
 from simkit.sim import Sim, draw_sim_config, reset_process_state
 
 PROPERTY = "C01"
@@ -80,7 +81,8 @@ def signature(sc, aspect, extra=None):
     n_cfg = p.get("fp", {}).get("num_configs", 1) if p["kind"] != "crystal" else p.get("num_frozen_phonons", 1) or 1
     s = {"aspect": aspect, "pot": p["kind"], "multi_config": n_cfg > 1,
          "ensemble_mean": (p.get("fp", {}).get("ensemble_mean") if p["kind"] != "crystal" else p.get("crystal_mean")),
-         "exit_planes": p["exit_planes"] is not None, "builder": sc["builder"]["kind"]}
+         "exit_planes": p["exit_planes"] is not None, "builder": sc["builder"]["kind"],
+         "scan": sc["scan"]["kind"] != "none", "dets": "+".join(sorted({d["kind"] for d in sc["detectors"]}))}
     if extra:
         s.update(extra)
     return s
@@ -92,7 +94,8 @@ def run_one(run):
     run.scenario = sc
     knobs = sc["knobs"]
     rtol, atol = oracle.tol_for(knobs["precision"])
-    reset_process_state(scene.knob_overrides(knobs))
+    wg = scene.wave_gpts(sc["potential"])
+    reset_process_state(scene.knob_overrides(knobs, wg))
 
     ref = ref_exc = None
     try:
@@ -108,7 +111,7 @@ def run_one(run):
     for j in range(2):
         mb = knobs["max_batch"] if j == 0 else ch.pick([1, "auto", 2, 4], "max-batch-2")
         if j == 1:
-            reset_process_state({**scene.knob_overrides(knobs), "dask.chunk-size": ch.pick(["2 kB", "128 MB", "32 kB"], "chunk-size-2")})
+            reset_process_state(scene.knob_overrides({**knobs, "chunk_waves": ch.pick([1, None, 4, 2], "chunk-waves-2")}, wg))
         cfg = draw_sim_config(ch)
         sim = run.add_sim(Sim(ch, cfg))
         sub = sub_exc = None
@@ -125,11 +128,15 @@ def run_one(run):
             who = "lazy" if sub_exc is not None else "eager"
             e = sub_exc or ref_exc
             run.violate("fail-together", signature(sc, "raise", {"raised": who, "exc": type(e).__name__}),
-                        f"{who} raised {type(e).__name__}: {e}; the other mode succeeded (max_batch={mb})")
+                        f"{who} raised {type(e).__name__}: {e}; the other mode succeeded (max_batch={mb}) at {tb(e)}")
             continue
         if ref_exc is not None:
             continue
         for aspect, msg in oracle.compare_results(ref, sub, rtol, atol):
+            if aspect == "dtype":
+                # the statement lists values, shape, type and axes metadata -- not the dtype: counted, not a verdict
+                run.note("dtype_differs_lazy_vs_eager")
+                continue
             run.violate("lazy-equals-eager", signature(sc, aspect), f"subject {j} (max_batch={mb}, {sim.describe()}): {msg}")
         subs.append(sub)
     if ref is not None:
